@@ -84,6 +84,9 @@ class WebSocketDataQueue:
         self._eof = False
         self._waiter: asyncio.Future[None] | None = None
         self._exception: type[BaseException] | BaseException | None = None
+        # Set by the reader that stopped decoding a chunk because the queue
+        # was over its limit; it continues when the queue is drained.
+        self._held_reader: "WebSocketReader | None" = None
         self._buffer: deque[WSMessage] = deque()
         self._get_buffer = self._buffer.popleft
         self._put_buffer = self._buffer.append
@@ -147,6 +150,10 @@ class WebSocketDataQueue:
             data = self._get_buffer()
             size = data.size or 1
             self._size -= size
+            if self._size < self._limit and self._held_reader is not None:
+                # Frames already received come before anything new is read.
+                reader, self._held_reader = self._held_reader, None
+                reader.feed_data(b"")
             if self._size < self._limit and self._protocol._reading_paused:
                 self._protocol.resume_reading()
             return data
@@ -587,6 +594,11 @@ class WebSocketReader:
                 )
                 self._frame_payload_len = 0
                 self._state = READ_HEADER
+                if self.queue._size > self.queue._limit:
+                    # Pausing the transport only stops the next read: keep the
+                    # rest of this chunk until the queue has been drained.
+                    self.queue._held_reader = self
+                    break
 
         # XXX: Cython needs slices to be bounded, so we can't omit the slice end here.
         self._tail = data_cstr[start_pos:data_len] if start_pos < data_len else b""
